@@ -27,6 +27,8 @@
 (***************************************************************************)
 EXTENDS Integers, Sequences, FiniteSets, TLC
 
+BudM == INSTANCE Budget          \* the shared rolling-window budget (budget.py)
+
 CONSTANTS
     Classes,      \* error classes the classifiers may return in this model
     Outs,         \* attempt outcomes offered by the environment
@@ -39,7 +41,8 @@ CONSTANTS
                   \* swallowed), "kbd", "sysexit", "cancel" (must propagate)
     Ras,          \* retry_after hints attached to failures (-1 = none)
     Modes,        \* subset of {"call", "exec"}: how the result is delivered
-    NRuns         \* consecutive runs on the same policy object (budget is shared)
+    NRuns,        \* consecutive runs on policy objects sharing one budget
+    RunGaps       \* clock advances between consecutive runs
 
 NonRetry == {"PERMANENT", "AUTH", "PERMISSION"}
 None == -1
@@ -65,11 +68,12 @@ SInit(c) == [pc |-> IF c.maxAtt = 0 THEN "zeroexh" ELSE "top",
              lk |-> "-", lcause |-> "-", lid |-> None, lra |-> None,
              ck |-> "-", ccause |-> "-", cra |-> None,    \* failure being processed
              cout |-> "-",                                \* outcome of the last invocation
-             stop |-> "-", budget |-> c.budget, sl |-> None,
+             stop |-> "-", bq |-> BudM!UInit, epoch |-> 0, sl |-> None,
              dkind |-> "-", own |-> FALSE, abn |-> 0]
 
-\* next run on the same policy object: everything is fresh except the budget
-SNewRun(c, s) == [SInit(c) EXCEPT !.run = s.run + 1, !.budget = s.budget]
+\* next run: everything is fresh except the shared budget; the clock has moved on
+SNewRun(c, s, gap) == [SInit(c) EXCEPT !.run = s.run + 1, !.bq = s.bq,
+                                       !.epoch = s.epoch + s.now + gap]
 
 (***************************************************************************)
 (* Events                                                                  *)
@@ -82,7 +86,7 @@ EvClassify(n, k, ra, t) == [e |-> "classify", n |-> n, k |-> k, ra |-> ra, t |->
 EvStrategy(which, n, k, ra, prev, rem, cause, ret, t) ==
     [e |-> "strategy", which |-> which, n |-> n, k |-> k, ra |-> ra, prev |-> prev,
      rem |-> rem, cause |-> cause, ret |-> ret, t |-> t]
-EvConsume(ok, t)      == [e |-> "consume", ok |-> ok, t |-> t]
+EvConsume(ok, t, at)  == [e |-> "consume", ok |-> ok, t |-> t, at |-> at]   \* at: absolute time
 EvEmit(name, n, sleep, k, err, stop, cause, ra, op, t) ==
     [e |-> "emit", name |-> name, n |-> n, sleep |-> sleep, k |-> k, err |-> err,
      stop |-> stop, cause |-> cause, ra |-> ra, op |-> op, t |-> t]
@@ -94,7 +98,7 @@ EvSleep(s, adv, t, t1) == [e |-> "sleep", s |-> s, us |-> s * 15625, adv |-> adv
 View(kind, id, ok, stop, attempts, lastk, cause, lexc, lres, next, own) ==
     [kind |-> kind, id |-> id, ok |-> ok, stop |-> stop, attempts |-> attempts, lastk |-> lastk,
      cause |-> cause, lexc |-> lexc, lres |-> lres, next |-> next, own |-> own]
-EvDeliver(mode, v, t) == [e |-> "deliver", mode |-> mode, v |-> v, t |-> t]
+EvDeliver(mode, v, t, gap) == [e |-> "deliver", mode |-> mode, v |-> v, t |-> t, gap |-> gap]
 
 (***************************************************************************)
 (* Pure helpers mirroring the code                                         *)
@@ -223,11 +227,13 @@ Handle(c, s) ==
                                    !.sl = Sanitise(r, rem)]>> : r \in Rets }
     ELSE {}
 
+\* budget.consume(): the real rolling-window budget, at absolute time epoch + now
 Consume(c, s) ==
     IF s.pc = "consume" THEN
-        IF s.budget > 0
-        THEN { <<EvConsume(TRUE, s.now), [s EXCEPT !.pc = "retryemit", !.budget = @ - 1]>> }
-        ELSE { <<EvConsume(FALSE, s.now), [s EXCEPT !.pc = "budgetstop"]>> }
+        LET at  == s.epoch + s.now
+            res == BudM!UConsume([max |-> c.budget, W |-> c.bW], s.bq, 1, at)
+        IN  { <<EvConsume(res.ret = 1, s.now, at),
+                [s EXCEPT !.bq = res.q, !.pc = IF res.ret = 1 THEN "retryemit" ELSE "budgetstop"]>> }
     ELSE {}
 
 BudgetStop(c, s) ==
@@ -371,8 +377,11 @@ Related(callv, execv) ==
 
 Deliver(c, s) ==
     IF s.pc = "deliver" THEN
-        { <<EvDeliver(m, IF m = "call" THEN CallView(s) ELSE ExecView(s), s.now),
-            IF s.run < NRuns THEN SNewRun(c, s) ELSE [s EXCEPT !.pc = "done"]>> : m \in Modes }
+        IF s.run < NRuns
+        THEN { <<EvDeliver(m, IF m = "call" THEN CallView(s) ELSE ExecView(s), s.now, g),
+                 SNewRun(c, s, g)>> : m \in Modes, g \in RunGaps }
+        ELSE { <<EvDeliver(m, IF m = "call" THEN CallView(s) ELSE ExecView(s), s.now, 0),
+                 [s EXCEPT !.pc = "done"]>> : m \in Modes }
     ELSE {}
 
 MStep(c, s) ==
